@@ -519,6 +519,23 @@ class World:
                 forms.append(('deleted-key-cert+locator', {'cert': enc.Name.from_bytes(cn), 'key_locator': enc.Name.from_bytes(L)}, {'cert': cn, 'key_locator': L}))
         for label, la, ra in forms:
             self.check_signer(label, la, ra, viol)
+        # what another process opening the same store would get: the private key held for every key is the one its public key belongs to
+        for i in self.ref.values():
+            for kn, k in i['keys'].items():
+                try:
+                    wire = bytes(enc.make_data('/probe/c15', enc.MetaInfo(), b'probe', self.kc.tpm.get_signer(enc.Name.from_bytes(kn))))
+                    r = ns.read_data(wire)
+                    if len(k['bits']) > 200:
+                        pkcs1_15.new(RSA.import_key(k['bits'])).verify(SHA256.new(r['signed']), r['sig_value'])
+                    else:
+                        DSS.new(ECC.import_key(k['bits']), 'fips-186-3', 'der').verify(SHA256.new(r['signed']), r['sig_value'])
+                except Injected:
+                    raise
+                except ValueError:
+                    viol.append(('C15|signer|private-key-store|wrong-private-key', f'the private key stored for {enc.Name.to_str(enc.Name.from_bytes(kn))} does not belong '
+                                                                                  f'to the public key stored for it'))
+                except Exception as e:  # noqa
+                    viol.append((f'C15|signer|private-key-store|raises:{type(e).__name__}', f'{e!r}'))
 
     # -- operations ----------------------------------------------------------------------------------------------
     def perform(self, op):
@@ -568,6 +585,16 @@ class World:
             if kind == 'delcert2':
                 return True, lambda: kc[ib][k].del_cert(enc.Name.from_bytes(c))
             return True, lambda: kc[ib][k].set_default_cert(enc.Name.from_bytes(c))
+        if kind == 'newkey-id':
+            # a key with an identifier chosen by the application (documented keyword key_id): fine once, refused the second time - and the
+            # refusal must leave the existing key of that name as it was
+            u = IDN[op[1]]
+            if nb(u) not in self.ref:
+                return False, None
+            exists = nb(u + '/KEY/fixed-id') in self.ref[nb(u)]['keys']
+            if not exists and len(self.ref[nb(u)]['order']) >= 2:
+                return False, None
+            return True, lambda: kc.new_key(u, key_type='ec', key_id='fixed-id')
         if kind == 'defkey-gone':
             # the application still holds the name of a key it deleted earlier and names it as default: nothing of that name exists,
             # so nothing changes (refusing with KeyError is as good)
@@ -619,7 +646,7 @@ class World:
                 self.default_id = ib
             if kind == 'touch' and created:
                 self.model_newkey(ib)
-        elif kind == 'newkey':
+        elif kind in ('newkey', 'newkey-id'):
             self.model_newkey(nb(IDN[op[1]]))
         elif kind == 'delid':
             ib = nb(IDN[op[1]])
@@ -682,14 +709,17 @@ class World:
         if not applicable:
             return viol
         expect_refusal = op[0] == 'newid' and nb(IDN[op[1]]) in self.ref
+        dup_key = op[0] == 'newkey-id' and nb(IDN[op[1]] + '/KEY/fixed-id') in self.ref.get(nb(IDN[op[1]]), {'keys': {}})['keys']
         try:
             try:
                 call()
             except Exception:  # noqa
-                if op[0] not in ('defkey-gone', 'import-dup'):
+                if op[0] not in ('defkey-gone', 'import-dup') and not dup_key:
                     raise
                 # refusing is fine; the state is compared below all the same
-            if expect_refusal:
+            if dup_key:
+                pass            # refused or not, the state is compared below
+            elif expect_refusal:
                 viol.append(('C15|op|duplicate-identity-accepted', f'new_identity on an existing identity did not raise; op {op}'))
             else:
                 try:
@@ -779,7 +809,7 @@ def alphabet(tier):
            ('delcert', 'a', 0, 0), ('delcert', 'a', 0, 1), ('delcert2', 'a', 0, 0), ('delcert', 'b', 0, 0),
            ('delkey', 'a', 0), ('delkey', 'a', 1), ('delkey2', 'a', 0), ('delkey', 'b', 0),
            ('delid', 'a'), ('delid', 'b'), ('signL', 'a', 0), ('signL', 'a', 1), ('signL', 'b', 0), ('reopen',),
-           ('defkey-gone', 'a'), ('import-dup', 'a')]
+           ('defkey-gone', 'a'), ('import-dup', 'a'), ('newkey-id', 'a')]
     return ops
 
 
@@ -862,9 +892,15 @@ def run_fault(hist, mode):
             w.resync()
             # repeat the operation
             applicable, call = w.perform(last)
+            # (a key with a chosen identifier that the interrupted attempt did create is rightly refused the second time)
+            dup = last[0] == 'newkey-id' and nb(IDN[last[1]] + '/KEY/fixed-id') in w.ref.get(nb(IDN[last[1]]), {'keys': {}})['keys']
             if applicable:
                 try:
-                    call()
+                    try:
+                        call()
+                    except Exception:  # noqa
+                        if not dup:
+                            raise
                 except KeyError as e:
                     if last[0] != 'newid':
                         viol.append((f'C15|fault|{mode}|{last[0]}|repeat-raises:KeyError@{tb_where(e)}',
